@@ -582,7 +582,7 @@ func (r *UnitRun) evalTypeAssert(st *State, e *ast.TypeAssertExpr, commaOk bool)
 		if !commaOk {
 			r.oblige(st, "assert", site, ok, e, "type assertion to "+dstT.String()+" succeeds", nil)
 		}
-		return r.fromTerm(sx("un"+fn, x.T), dstT), ok
+		return r.lenFact(st, r.fromTerm(sx("un"+fn, x.T), dstT)), ok // a slice value has a non-negative length
 	}
 	panic(toolLimit("type assertion on " + x.String()))
 }
